@@ -1,4 +1,4 @@
 From Coq Require Import Extraction ExtrOcamlBasic.
-From AC Require Import Base.Sexp Model.Names.
-Definition dispatch := run_names.
+From AC Require Import Base.Sexp Model.Names Model.Scopes.
+Definition dispatch := run_scopes.
 Extraction "model.ml" dispatch.
